@@ -34,6 +34,17 @@ type c16colls struct {
 	M  map[string]c16Elem
 }
 
+// slices and maps whose elements/keys/values are named strings, named bools, named floats
+type c16Ratio float32
+
+type c16colls2 struct {
+	H  []c16Name
+	MN map[c16Name]c16Name
+	B  []c16Flag
+	R  []c16Ratio
+	KS map[c16Name]struct{}
+}
+
 type c16ptrs struct {
 	PI *int
 	PS *c16Name
@@ -78,6 +89,10 @@ func HarnessC16EnvNamedScalars() {
 
 func HarnessC16EnvNamedCollections() {
 	c16env[c16colls]("named collections", map[string]string{"LI": "a,b", "S": "a,b", "E": "1,2", "M": "a:1"})
+}
+
+func HarnessC16EnvNamedElems() {
+	c16env[c16colls2]("collections of named strings/bools/floats", map[string]string{"H": "a,b", "MN": "a:b", "B": "true,false", "R": "1.5,2", "KS": "a,b"})
 }
 
 func HarnessC16EnvPointers() {
